@@ -3,6 +3,7 @@ from . import stackprops as sp, stackcommon as sc
 
 ID = "C13"
 FAMILY = "stack"
+RETRY = 2
 RULE = 'at five protocol states (fresh, after pair-setup start, after a right proof, after pair-verify start, verified) a connection sends malformed TLV8 (truncated, over-long, missing items), malformed / hostile JSON (wrong types, 1e400, 12000-deep nesting, invalid UTF-8), short / undecryptable encrypted payloads, unknown steps and methods, composite and non-finite values; afterwards the same connection (after at most one rejected start) and a new connection run a correct handshake. non-trivial = all'
 ASSUMPTIONS = ["symbolic cryptography in the model (forging is impossible by construction of the message alphabet: INT-CTXT of ChaCha20-Poly1305, EUF-CMA of Ed25519, SRP-6a soundness, CDH on Curve25519, HKDF as a random oracle are assumed, not proved); net/http request parsing is modelled as 400-and-close for ciphertext on a plaintext connection; the reference controller's abstract message kinds are realised by concrete builders in harness/cmd/hcdrv/stack.go"]
 TRUSTED = ["reference controller harness/cmd/hcdrv/refctl.go (math/big SRP with the RFC 3526 prime re-derived from pi, crypto/ed25519, x/crypto curve25519 / chacha20poly1305 / hkdf)", "scenario translation ocaml/fam_stack.ml and canonicalisation tools/vlib/props/stackcommon.py"]
